@@ -31,7 +31,7 @@ def statement_prim : Prop :=
     activeVerticesConnected g ia base false true = .ok p →
     (Realizable base p σ ↔ ActiveConnected g (truthAt σ ia))
 
-theorem C04_prim_exact : statement_prim := Cspuz.Proofs.C04.prim_exact
+theorem C04_prim_exact : statement_prim := Cspuz.Proofs.C04Prim.prim_exact
 
 /-- The native operator is never used for acyclic connectivity, and the generator succeeds on every
 well-formed call with at least one vertex. -/
@@ -51,6 +51,6 @@ def statement_grid : Prop :=
       ((u.1 / w = v.1 / w ∧ (u.1 % w + 1 = v.1 % w ∨ v.1 % w + 1 = u.1 % w)) ∨
        (u.1 % w = v.1 % w ∧ (u.1 / w + 1 = v.1 / w ∨ v.1 / w + 1 = u.1 / w)))
 
-theorem C04_grid : statement_grid := Cspuz.Proofs.C04.grid_adj
+theorem C04_grid : statement_grid := Cspuz.Proofs.C04Prim.grid_adj
 
 end Cspuz.C04
